@@ -199,6 +199,7 @@ example : lookup [⟨0, 10⟩, ⟨5, 20⟩, ⟨9, 30⟩] 2 = .ok (10 : Nat) ∧
     length one (for single time slices) followed by the grid's data shape; plain arrays of the
     grid's shape get the axis added, arrays that already carry it pass unchanged. -/
 theorem prepare_shape (gshape : List Nat) (orderF : Bool) (a r : Arr)
+    (hg : gshape ≠ [])    -- FINAM grids have at least one axis
     (hte : timeEntries gshape a.shape = 1)
     (h : checkInputShape (.grid gshape orderF) a = .ok r) :
     r.shape = 1 :: gshape := by
@@ -214,8 +215,8 @@ theorem prepare_shape (gshape : List Nat) (orderF : Bool) (a r : Arr)
       · rename_i h2
         cases h
         simp only [timeEntries] at hte
-        cases hr : r.shape with
-        | nil => rw [hr] at h2; simp at h2; subst h2; rw [hr] at hte; simp at hte
+        cases hr : a.shape with
+        | nil => rw [hr] at h2; simp at h2; exact absurd h2 hg
         | cons x xs =>
           rw [hr] at h2 hte
           simp at h2
